@@ -1,9 +1,13 @@
+//go:build go1.23
+
 package tbtc
 
 import (
 	"context"
+	"crypto/ecdsa"
 	"fmt"
 	"math"
+	"math/big"
 	"runtime"
 	"sort"
 	"strings"
@@ -12,7 +16,9 @@ import (
 	"testing"
 	"time"
 
+	golog "github.com/ipfs/go-log/v2"
 	"github.com/keep-network/keep-core/internal/verifkit"
+	"github.com/keep-network/keep-core/pkg/tecdsa"
 	"pgregory.net/rapid"
 )
 
@@ -143,26 +149,39 @@ func (c *c23Ctx) Done() <-chan struct{} {
 	return c.Context.Done()
 }
 
-type c23Recorder struct {
-	mu      sync.Mutex
-	windows []uint64
-	landed  chan struct{} // one token per callback
+// c23Start is one observed start of coordination: for which window block, and
+// for whom ("" for the bare watcher callback, the wallet key for the node).
+type c23Start struct {
+	block uint64
+	who   string
 }
 
-func (r *c23Recorder) onWindow(w *coordinationWindow) {
+type c23Recorder struct {
+	mu     sync.Mutex
+	starts []c23Start
+	landed chan struct{} // wake-up tokens, one per start
+}
+
+func (r *c23Recorder) record(block uint64, who string) {
 	r.mu.Lock()
-	defer r.mu.Unlock()
-	r.windows = append(r.windows, w.coordinationBlock)
+	r.starts = append(r.starts, c23Start{block, who})
+	r.mu.Unlock()
 	select {
 	case r.landed <- struct{}{}:
 	default:
 	}
 }
 
-func (r *c23Recorder) snapshot() []uint64 {
+func (r *c23Recorder) snapshot() []c23Start {
 	r.mu.Lock()
 	defer r.mu.Unlock()
-	return append([]uint64{}, r.windows...)
+	return append([]c23Start{}, r.starts...)
+}
+
+func (r *c23Recorder) count() int {
+	r.mu.Lock()
+	defer r.mu.Unlock()
+	return len(r.starts)
 }
 
 func c23Inconclusive(t *rapid.T, why string) {
@@ -170,218 +189,422 @@ func c23Inconclusive(t *rapid.T, why string) {
 	t.Fatalf("VERIF-INCONCLUSIVE: %s", why)
 }
 
-func c23Equal(a, b []uint64) bool {
-	if len(a) != len(b) {
-		return false
+// c23Expected is what the model expects to have been started: the windows in
+// order and, per window, who (sorted).
+type c23Expected struct {
+	windows []uint64
+	who     [][]string
+}
+
+func (e *c23Expected) total() int {
+	n := 0
+	for _, w := range e.who {
+		n += len(w)
 	}
-	for i := range a {
-		if a[i] != b[i] {
-			return false
+	return n
+}
+
+func c23WindowsOf(starts []c23Start) []uint64 {
+	var out []uint64
+	for _, s := range starts {
+		if len(out) == 0 || out[len(out)-1] != s.block {
+			out = append(out, s.block)
 		}
 	}
-	return true
+	return out
 }
+
+const c23NoTail = 1 << 60 // "the order of all starts is forced"
+
+// c23Compare checks the observed starts against the expectation. Starts of
+// one window are contiguous (the harness lets a window land before it offers
+// the next window block); `from` is the index from which the order of starts
+// is not forced (blocks taken while racing with the cancellation), there the
+// starts are grouped by window first.
+func c23Compare(starts []c23Start, from int, exp *c23Expected) string {
+	if from < len(starts) {
+		tailStarts := append([]c23Start{}, starts[from:]...)
+		sort.SliceStable(tailStarts, func(i, j int) bool { return tailStarts[i].block < tailStarts[j].block })
+		starts = append(append([]c23Start{}, starts[:from]...), tailStarts...)
+	}
+	// the clauses of the statement, one by one, for readable messages
+	seen := map[uint64]map[string]int{}
+	var order []uint64
+	for _, s := range starts {
+		if s.block == 0 || s.block%c23Freq != 0 {
+			return fmt.Sprintf("coordination started for block %d which is not a positive multiple of %d", s.block, c23Freq)
+		}
+		if seen[s.block] == nil {
+			if n := len(order); n > 0 && order[n-1] > s.block {
+				return fmt.Sprintf("window %d started after the later window %d", s.block, order[n-1])
+			}
+			seen[s.block] = map[string]int{}
+			order = append(order, s.block)
+		} else if order[len(order)-1] != s.block {
+			return fmt.Sprintf("window %d started again after window %d had been started", s.block, order[len(order)-1])
+		}
+		seen[s.block][s.who]++
+		if seen[s.block][s.who] > 1 {
+			return fmt.Sprintf("window %d: coordination%s started %d times", s.block, c23For(s.who), seen[s.block][s.who])
+		}
+	}
+	// exactness, both directions
+	if len(order) != len(exp.windows) {
+		return fmt.Sprintf("windows started %v, expected %v", order, exp.windows)
+	}
+	for i, w := range exp.windows {
+		if order[i] != w {
+			return fmt.Sprintf("windows started %v, expected %v", order, exp.windows)
+		}
+		for _, who := range exp.who[i] {
+			if seen[w][who] != 1 {
+				return fmt.Sprintf("window %d: coordination%s not started", w, c23For(who))
+			}
+		}
+		if len(seen[w]) != len(exp.who[i]) {
+			return fmt.Sprintf("window %d: coordination started for %d parties, expected %d", w, len(seen[w]), len(exp.who[i]))
+		}
+	}
+	return ""
+}
+
+func c23For(who string) string {
+	if who == "" {
+		return ""
+	}
+	return " of wallet " + who
+}
+
+// c23Subject is the thing that turns blocks into coordination starts: the
+// bare window watcher, or the node's coordination layer built on it.
+type c23Subject struct {
+	// start launches the subject on the block source; it returns once the
+	// subject's goroutines exist.
+	start func(ctx context.Context, blocks chan uint64, record func(block uint64, who string))
+	// running: goroutines the subject keeps while its context is alive
+	running int
+	// who is started for a window detected right now (sorted)
+	who func() []string
+	// between is called before every block with the position in the stream
+	between func(t *rapid.T, i int) string
+}
+
+type c23Env struct {
+	st       *verifkit.Stats
+	baseline int // goroutines without any subject
+	leaked   int // subjects that never stopped (only after a violation was reported)
+}
+
+func (env *c23Env) quiet(extra int) bool { return runtime.NumGoroutine() <= env.baseline+env.leaked+extra }
+
+// waitQuiet: usually a matter of microseconds, so yield first, sleep later.
+func (env *c23Env) waitQuiet(extra int, d time.Duration) bool {
+	for i := 0; i < 300; i++ {
+		if env.quiet(extra) {
+			return true
+		}
+		runtime.Gosched()
+	}
+	return verifkit.Eventually(d, func() bool { return env.quiet(extra) })
+}
+
+// c23Drive feeds the stream to the subject and judges what was started.
+func c23Drive(t *rapid.T, env *c23Env, subj *c23Subject, stream []uint64, kinds []string, cancelAt int) (nontrivial bool, desc string, labels []string) {
+	st := env.st
+	if !env.waitQuiet(0, 20*time.Second) {
+		c23Inconclusive(t, "goroutines of the previous case did not settle")
+	}
+	inner, cancel := context.WithCancel(context.Background())
+	defer cancel()
+	ctx := &c23Ctx{Context: inner}
+	blocks := make(chan uint64) // unbuffered: a send returns once the watcher took the block
+	rec := &c23Recorder{landed: make(chan struct{}, 4096)}
+	subj.start(ctx, blocks, rec.record)
+
+	model := &c23Model{}
+	exp := &c23Expected{}
+	observe := func(b uint64) bool {
+		if !model.observe(b) {
+			return false
+		}
+		exp.windows = append(exp.windows, b)
+		exp.who = append(exp.who, subj.who())
+		return true
+	}
+	var rendered []string
+	render := func() string { return strings.Join(rendered, " ") }
+	fail := func(msg string) {
+		cancel()
+		t.Fatalf("%s; stream: %s", msg, render())
+	}
+	// settle decides without the clock whether everything that was going to
+	// be started has been started: an off-grid block is offered; once the
+	// watcher took it, the `go` statements for the previous block have been
+	// executed if they ever will be, and the goroutine count tells when the
+	// started goroutines have finished.
+	settle := func() {
+		st.Label("sync:sentinel")
+		select {
+		case blocks <- 1:
+			rendered = append(rendered, "1")
+		case <-time.After(20 * time.Second):
+			cancel()
+			c23Inconclusive(t, "watcher did not take the sentinel block within 20s")
+		}
+		if !env.waitQuiet(subj.running, 20*time.Second) {
+			cancel()
+			c23Inconclusive(t, "callback goroutines did not settle within 20s")
+		}
+		if msg := c23Compare(rec.snapshot(), c23NoTail, exp); msg != "" {
+			fail(msg)
+		}
+	}
+
+	dupWindow, regression := false, false
+	for i := 0; i < cancelAt; i++ {
+		if subj.between != nil {
+			if note := subj.between(t, i); note != "" {
+				rendered = append(rendered, note)
+			}
+		}
+		b := stream[i]
+		if b != 0 && b%c23Freq == 0 && len(model.started) > 0 {
+			last := model.started[len(model.started)-1]
+			dupWindow = dupWindow || b == last
+			regression = regression || b < last
+		}
+		select {
+		case blocks <- b:
+			rendered = append(rendered, fmt.Sprint(b))
+		case <-time.After(20 * time.Second):
+			cancel()
+			c23Inconclusive(t, fmt.Sprintf("watcher did not take block %d (#%d) within 20s", b, i))
+		}
+		if observe(b) {
+			// Starts run in their own goroutines: let those of this window
+			// land before the next block is offered so that the order of the
+			// observed starts is forced by the harness, not by the scheduler.
+			// Tokens only wake the harness up; what counts is the number of
+			// recorded starts. A missing start is never decided by this
+			// bounded wait but by settle().
+			want := exp.total()
+			timeout := time.After(c23Patience())
+			landed, expired := rec.count() >= want, false
+			for !landed && !expired {
+				select {
+				case <-rec.landed:
+				case <-timeout:
+					expired = true
+				}
+				landed = rec.count() >= want
+			}
+			if !landed {
+				settle()
+			}
+		}
+	}
+
+	// Cancellation. No block is on offer at this moment, so a correct watcher
+	// sees the cancelled context and returns (normally within microseconds).
+	beforeCancel := rec.count()
+	cancel()
+	stopped := env.waitQuiet(0, c23Patience())
+	postConsumed := 0
+	if !stopped {
+		// Slow machine, or a watcher that ignores the cancellation. Decide
+		// without the clock: the block source keeps emitting - further window
+		// starts are offered. A correct watcher that is merely late returns at
+		// its next select unless it loses the fair choice against a block on
+		// offer (documented race; such a block belongs to the history and
+		// goes into the model). A watcher that takes c23PostCancelOffers
+		// offers in a row and is still running does not stop.
+		st.Label("cancel:slow-path")
+		next := uint64(1)
+		if n := len(model.started); n > 0 {
+			next = model.started[n-1]/c23Freq + 1
+		}
+		deadline := time.Now().Add(20 * time.Second)
+		for postConsumed < c23PostCancelOffers && !stopped {
+			select {
+			case blocks <- next * c23Freq:
+				postConsumed++
+				rendered = append(rendered, fmt.Sprintf("(cancelled)%d", next*c23Freq))
+				observe(next * c23Freq)
+				next++
+			case <-time.After(time.Millisecond):
+			}
+			stopped = env.quiet(0)
+			if !stopped && time.Now().After(deadline) {
+				c23Inconclusive(t, "watcher neither stopped nor took a block within 20s after cancellation")
+			}
+		}
+		if !stopped {
+			all := rec.snapshot()
+			ctx.muted.Store(true) // park the goroutine that cannot be stopped
+			env.leaked++
+			t.Fatalf("the watcher is still running after its context was cancelled: it took all %d blocks offered after cancel() had returned and started coordination for windows %v after the cancellation (before: %v)",
+				postConsumed, c23WindowsOf(all[beforeCancel:]), c23WindowsOf(all[:beforeCancel]))
+		}
+	}
+	// The watcher has stopped: nobody may take blocks from the source any
+	// more (non-blocking offers of the rest of the stream).
+	for i := cancelAt; i < len(stream) && i < cancelAt+4; i++ {
+		select {
+		case blocks <- stream[i]:
+			t.Fatalf("block %d offered after the cancelled watcher had stopped was consumed", stream[i])
+		default:
+		}
+	}
+	// Everything the watcher was ever going to start has been started and
+	// has finished (goroutine count back at the baseline).
+	from := c23NoTail
+	if postConsumed > 0 {
+		from = beforeCancel
+	}
+	if msg := c23Compare(rec.snapshot(), from, exp); msg != "" {
+		t.Fatalf("%s; stream: %s", msg, render())
+	}
+
+	seenKinds := map[string]bool{}
+	for i := 0; i < cancelAt; i++ {
+		seenKinds[kinds[i]] = true
+	}
+	labels = []string{
+		fmt.Sprintf("dup-window:%v", dupWindow), fmt.Sprintf("regression:%v", regression),
+		fmt.Sprintf("cancelled-early:%v", cancelAt < len(stream)),
+		fmt.Sprintf("windows:%d", min(len(model.started), 6)),
+		fmt.Sprintf("top-of-range:%v", cancelAt > 0 && stream[0] > math.MaxUint64/2 || len(model.started) > 0 && model.started[0] > math.MaxUint64/2),
+	}
+	for _, k := range []string{"near", "zero", "walk", "skip", "leap"} {
+		if seenKinds[k] {
+			labels = append(labels, "has:"+k)
+		}
+	}
+	return dupWindow && regression, fmt.Sprintf("%s -> %v", render(), model.started), labels
+}
+
+func c23DrawCancel(t *rapid.T, n int) int {
+	if rapid.IntRange(0, 3).Draw(t, "cancelEarly") == 0 {
+		return rapid.IntRange(0, n).Draw(t, "cancelAt")
+	}
+	return n
+}
+
+// ---------------------------------------------------------------------------
+// the window watcher alone
 
 func TestVerif_C23_WindowsOnceInOrder(t *testing.T) {
 	st := verifkit.New("C23", "TestVerif_C23_WindowsOnceInOrder")
 	defer st.Flush()
-	baseline := runtime.NumGoroutine() // no watcher, no callbacks
-	leaked := 0                        // watchers that never returned (only after a violation was reported)
+	env := &c23Env{st: st, baseline: runtime.NumGoroutine()}
 	rapid.Check(t, func(t *rapid.T) {
 		stream, kinds := c23GenStream(t)
-		cancelAt := len(stream)
-		if rapid.IntRange(0, 3).Draw(t, "cancelEarly") == 0 {
-			cancelAt = rapid.IntRange(0, len(stream)).Draw(t, "cancelAt")
+		cancelAt := c23DrawCancel(t, len(stream))
+		subj := &c23Subject{
+			running: 1,
+			who:     func() []string { return []string{""} },
+			start: func(ctx context.Context, blocks chan uint64, record func(uint64, string)) {
+				go watchCoordinationWindows(ctx, func(context.Context) <-chan uint64 { return blocks },
+					func(w *coordinationWindow) { record(w.coordinationBlock, "") })
+			},
 		}
+		nt, desc, labels := c23Drive(t, env, subj, stream, kinds, cancelAt)
+		st.Case(nt, desc, labels...)
+	})
+}
 
-		if !verifkit.Eventually(20*time.Second, func() bool { return runtime.NumGoroutine() <= baseline+leaked }) {
-			c23Inconclusive(t, "goroutines of the previous case did not settle")
-		}
-		inner, cancel := context.WithCancel(context.Background())
-		defer cancel()
-		ctx := &c23Ctx{Context: inner}
-		blocks := make(chan uint64) // unbuffered: a send returns once the watcher took the block
-		rec := &c23Recorder{landed: make(chan struct{}, 1024)}
-		returned := make(chan struct{})
-		go func() {
-			defer close(returned)
-			watchCoordinationWindows(ctx, func(context.Context) <-chan uint64 { return blocks }, rec.onWindow)
-		}()
+// ---------------------------------------------------------------------------
+// the node: what "the node starts coordination" means for an operator that
+// controls several wallets - runCoordinationLayer on top of the watcher starts
+// the coordination procedure of every controlled wallet, once per window.
 
-		model := &c23Model{}
-		dupWindow, regression := false, false
-		var extra []int // positions after which the off-grid sentinel block 1 was offered
-		for i := 0; i < cancelAt; i++ {
-			b := stream[i]
-			if b != 0 && b%c23Freq == 0 && len(model.started) > 0 {
-				last := model.started[len(model.started)-1]
-				dupWindow = dupWindow || b == last
-				regression = regression || b < last
-			}
-			select {
-			case blocks <- b:
-			case <-time.After(20 * time.Second):
-				cancel()
-				c23Inconclusive(t, fmt.Sprintf("watcher did not take block %d (#%d) within 20s", b, i))
-			}
-			if model.observe(b) {
-				// Callbacks run in their own goroutines: let this one land
-				// before the next block is offered so that the order of the
-				// observed invocations is forced by the harness, not by the
-				// scheduler. A missing callback is decided at the end of the
-				// case (after quiescence), never by this bounded wait.
-				// tokens only wake the harness up; what counts is the number of
-				// recorded callbacks (a token may be left over from a callback
-				// that landed late, after the sentinel path below)
-				want := len(model.started)
-				timeout := time.After(c23Patience())
-				landed, expired := false, false
-				for !landed && !expired {
-					select {
-					case <-rec.landed:
-					case <-timeout:
-						expired = true
-					}
-					landed = len(rec.snapshot()) >= want
-				}
-				if !landed {
-					// Not landed yet (slow machine, or a callback that will
-					// never come). Decide without the clock: an off-grid block
-					// is offered; once the watcher took it, the `go` statement
-					// for the previous block has been executed if it ever will
-					// be, and the goroutine count tells when it has finished.
-					st.Label("sync:sentinel")
-					select {
-					case blocks <- 1:
-						extra = append(extra, i)
-					case <-time.After(20 * time.Second):
-						cancel()
-						c23Inconclusive(t, "watcher did not take the sentinel block within 20s")
-					}
-					if !verifkit.Eventually(20*time.Second, func() bool { return runtime.NumGoroutine() <= baseline+leaked+1 }) {
-						cancel()
-						c23Inconclusive(t, "callback goroutines did not settle within 20s")
-					}
-					if got := rec.snapshot(); !c23Equal(got, model.started) {
-						cancel()
-						t.Fatalf("after block %d (#%d): windows started %v, expected %v", b, i, got, model.started)
-					}
-				}
-			}
-		}
+// c23Counter is the block counter handed to the node: WatchBlocks returns the
+// harness' block source.
+type c23Counter struct {
+	mu     sync.Mutex
+	blocks chan uint64
+}
 
-		// Cancellation. No block is on offer at this moment, so a correct
-		// watcher sees the cancelled context and returns (normally within
-		// microseconds).
-		beforeCancel := len(rec.snapshot())
-		cancel()
-		watcherReturned := false
-		select {
-		case <-returned:
-			watcherReturned = true
-		case <-time.After(c23Patience()):
-		}
-		postConsumed := 0
-		if !watcherReturned {
-			// Slow machine, or a watcher that ignores the cancellation. Decide
-			// without the clock: the block source keeps emitting - further
-			// window starts are offered. A correct watcher that is merely late
-			// returns at its next select unless it loses the fair choice
-			// against a block on offer (documented race; such a block belongs
-			// to the history and goes into the model). A watcher that takes
-			// c23PostCancelOffers offers in a row and is still running does not
-			// stop.
-			st.Label("cancel:slow-path")
-			next := uint64(1)
-			if n := len(model.started); n > 0 {
-				next = model.started[n-1]/c23Freq + 1
+func (c *c23Counter) WaitForBlockHeight(uint64) error { return nil }
+func (c *c23Counter) BlockHeightWaiter(uint64) (<-chan uint64, error) {
+	return make(chan uint64), nil
+}
+func (c *c23Counter) CurrentBlock() (uint64, error) { return 0, nil }
+func (c *c23Counter) WatchBlocks(context.Context) <-chan uint64 {
+	c.mu.Lock()
+	defer c.mu.Unlock()
+	return c.blocks
+}
+
+func c23WalletKey(scalar int64) (*ecdsa.PublicKey, string) {
+	x, y := tecdsa.Curve.ScalarBaseMult(big.NewInt(scalar).Bytes())
+	return &ecdsa.PublicKey{Curve: tecdsa.Curve, X: x, Y: y}, fmt.Sprintf("%x", x.Bytes()[:4])
+}
+
+func TestVerif_C23_NodeStartsEachWalletOnce(t *testing.T) {
+	_ = golog.SetLogLevel("*", "fatal")
+	st := verifkit.New("C23", "TestVerif_C23_NodeStartsEachWalletOnce")
+	defer st.Flush()
+	host := Connect()
+	counter := &c23Counter{}
+	host.blockCounter = counter
+	env := &c23Env{st: st, baseline: runtime.NumGoroutine()}
+	rapid.Check(t, func(t *rapid.T) {
+		stream, kinds := c23GenStream(t)
+		cancelAt := c23DrawCancel(t, len(stream))
+		// the wallets the node controls: 1..5 now, possibly more later
+		registry := &walletRegistry{walletCache: map[string]*walletCacheValue{}}
+		var names []string
+		base := rapid.Int64Range(2, 1<<40).Draw(t, "walletBase")
+		addWallet := func() string {
+			pub, name := c23WalletKey(base + int64(len(names)))
+			registry.mutex.Lock()
+			registry.walletCache[getWalletStorageKey(pub)] = &walletCacheValue{
+				signers: []*signer{{wallet: wallet{publicKey: pub}}},
 			}
-			bound := time.After(20 * time.Second)
-			for postConsumed < c23PostCancelOffers && !watcherReturned {
-				select {
-				case blocks <- next * c23Freq:
-					postConsumed++
-					model.observe(next * c23Freq)
-					next++
-				case <-returned:
-					watcherReturned = true
-				case <-bound:
-					c23Inconclusive(t, "watcher neither returned nor took a block within 20s after cancellation")
+			registry.mutex.Unlock()
+			names = append(names, name)
+			return name
+		}
+		for n := rapid.SampledFrom([]int{1, 2, 2, 3, 3, 4, 5}).Draw(t, "wallets"); n > 0; n-- {
+			addWallet()
+		}
+		joinAt := -1
+		if rapid.IntRange(0, 2).Draw(t, "walletJoins") == 0 && cancelAt > 0 {
+			joinAt = rapid.IntRange(0, cancelAt-1).Draw(t, "joinAt")
+		}
+		n := &node{chain: host, walletRegistry: registry}
+		subj := &c23Subject{
+			running: 2, // the watcher and the result processor
+			who: func() []string {
+				out := append([]string{}, names...)
+				sort.Strings(out)
+				return out
+			},
+			between: func(_ *rapid.T, i int) string {
+				if i == joinAt {
+					return "+wallet:" + addWallet()
 				}
-			}
-			if !watcherReturned {
-				late := rec.snapshot()[beforeCancel:]
-				ctx.muted.Store(true) // park the goroutine that cannot be stopped
-				leaked++
-				t.Fatalf("the watcher is still running after its context was cancelled: it took all %d blocks offered after cancel() had returned and started coordination for windows %v after the cancellation (before: %v)",
-					postConsumed, late, rec.snapshot()[:beforeCancel])
-			}
-		}
-		// The watcher has returned: nobody may take blocks from the source any
-		// more (non-blocking offers of the rest of the stream).
-		for i := cancelAt; i < len(stream) && i < cancelAt+4; i++ {
-			select {
-			case blocks <- stream[i]:
-				t.Fatalf("block %d offered after the cancelled watcher had returned was consumed", stream[i])
-			default:
-			}
-		}
-		// every `go onWindowFn` the watcher was ever going to issue has been
-		// issued; wait until those goroutines are gone.
-		if !verifkit.Eventually(20*time.Second, func() bool { return runtime.NumGoroutine() <= baseline+leaked }) {
-			c23Inconclusive(t, fmt.Sprintf("goroutines did not settle (%d > %d)", runtime.NumGoroutine(), baseline+leaked))
-		}
-		got := rec.snapshot()
-		if postConsumed > 0 {
-			// blocks taken while racing with the cancellation may have had
-			// several callbacks in flight: their order is the scheduler's
-			sort.Slice(got[beforeCancel:], func(i, j int) bool { return got[beforeCancel+i] < got[beforeCancel+j] })
-		}
-		render := func() string {
-			var parts []string
-			for i := 0; i < cancelAt; i++ {
-				parts = append(parts, fmt.Sprint(stream[i]))
-				for _, e := range extra {
-					if e == i {
-						parts = append(parts, "1")
-					}
+				return ""
+			},
+			start: func(ctx context.Context, blocks chan uint64, record func(uint64, string)) {
+				counter.mu.Lock()
+				counter.blocks = blocks
+				counter.mu.Unlock()
+				err := n.runCoordinationLayer(ctx, &coordinationLayerSettings{
+					executeCoordinationProcedureFn: func(_ *node, w *coordinationWindow, key *ecdsa.PublicKey) (*coordinationResult, bool) {
+						record(w.coordinationBlock, fmt.Sprintf("%x", key.X.Bytes()[:4]))
+						return nil, false
+					},
+					processCoordinationResultFn: func(*node, *coordinationResult) {},
+				})
+				if err != nil {
+					t.Fatalf("runCoordinationLayer: %v", err)
 				}
-			}
-			return strings.Join(parts, " ")
+			},
 		}
-		// the clauses of the statement on the observed invocations
-		for i, w := range got {
-			if w == 0 || w%c23Freq != 0 {
-				t.Fatalf("coordination started for block %d which is not a positive multiple of %d; stream: %s", w, c23Freq, render())
-			}
-			for j := 0; j < i; j++ {
-				if got[j] == w {
-					t.Fatalf("window %d started twice; started: %v; stream: %s", w, got, render())
-				}
-				if got[j] > w {
-					t.Fatalf("window %d started after the later window %d; started: %v; stream: %s", w, got[j], got, render())
-				}
-			}
-		}
-		// and the exact set (also the other direction: every new window seen is started)
-		if !c23Equal(got, model.started) {
-			t.Fatalf("windows started %v, expected %v; stream: %s", got, model.started, render())
-		}
-		seenKinds := map[string]bool{}
-		for i := 0; i < cancelAt; i++ {
-			seenKinds[kinds[i]] = true
-		}
-		labels := []string{
-			fmt.Sprintf("dup-window:%v", dupWindow), fmt.Sprintf("regression:%v", regression),
-			fmt.Sprintf("cancelled-early:%v", cancelAt < len(stream)),
-			fmt.Sprintf("windows:%d", min(len(model.started), 6)),
-			fmt.Sprintf("top-of-range:%v", cancelAt > 0 && stream[0] > math.MaxUint64/2 || len(model.started) > 0 && model.started[0] > math.MaxUint64/2),
-		}
-		for _, k := range []string{"near", "zero", "walk", "skip", "leap"} {
-			if seenKinds[k] {
-				labels = append(labels, "has:"+k)
-			}
-		}
-		st.Case(dupWindow && regression, fmt.Sprintf("%s -> %v", render(), model.started), labels...)
+		nt, desc, labels := c23Drive(t, env, subj, stream, kinds, cancelAt)
+		labels = append(labels, fmt.Sprintf("wallets:%d", min(len(names), 5)), fmt.Sprintf("wallet-joins:%v", joinAt >= 0))
+		st.Case(nt && len(names) >= 2, fmt.Sprintf("wallets=%v %s", names, desc), labels...)
 	})
 }
